@@ -516,7 +516,8 @@ fn convert_intensity(p: &mut Point) {
 struct Range {
     min: f64,
     max: f64,
-    half_range: f64,
+    scale: f64,
+    range: f64,
 }
 
 impl Range {
@@ -562,21 +563,24 @@ impl Range {
     }
 
     fn from_min_max(min: f64, max: f64) -> Result<Self> {
-        // Work with halved values to avoid overflows for very big ranges.
+        // Scale down the values of very big ranges to avoid overflows.
         // Empty, reversed or undefined (NaN, infinite) ranges are degenerated
         // and will normalize all values to zero.
-        let half_range = max * 0.5 - min * 0.5;
-        if half_range > 0.0 && half_range.is_finite() {
+        let scale = if (max - min).is_finite() { 1.0 } else { 0.5 };
+        let range = max * scale - min * scale;
+        if range > 0.0 && range.is_finite() {
             Ok(Self {
                 min,
                 max,
-                half_range,
+                scale,
+                range,
             })
         } else {
             Ok(Self {
                 min: 0.0,
                 max: 0.0,
-                half_range: 0.0,
+                scale: 1.0,
+                range: 0.0,
             })
         }
     }
@@ -674,9 +678,9 @@ impl Range {
 
     #[inline]
     fn normalize(&self, value: f64) -> f32 {
-        if self.half_range > 0.0 {
+        if self.range > 0.0 {
             let clamped = value.clamp(self.min, self.max);
-            let normalized = (clamped * 0.5 - self.min * 0.5) / self.half_range;
+            let normalized = (clamped * self.scale - self.min * self.scale) / self.range;
             normalized as f32
         } else {
             0.0
